@@ -33,6 +33,7 @@ import (
 	"github.com/youzan/ZanRedisDB/node"
 	"github.com/youzan/ZanRedisDB/rockredis"
 	"github.com/youzan/ZanRedisDB/server"
+	"github.com/youzan/ZanRedisDB/settings"
 	"github.com/youzan/ZanRedisDB/wal"
 )
 
@@ -70,6 +71,7 @@ func main() {
 	walSeg := flag.Int64("walseg", 0, "wal.SegmentSizeBytes (0 = default 64 MB)")
 	stale := flag.Bool("stale", false, "allow follower (stale) reads from the start (the parent switches them on only for its dumps)")
 	optFsync := flag.Bool("optfsync", false, "namespace option optimized_fsync")
+	maxCommitted := flag.Uint64("maxcommitted", 0, "settings.Soft.MaxCommittedSizePerReady in bytes (0 = default 16 MB): a tiny value makes the committed entries of a Ready lag behind and straddle its new entries")
 	flag.Parse()
 
 	ctl = os.NewFile(3, "ctl")
@@ -92,6 +94,9 @@ func main() {
 	if len(ports) != *n || *id < 1 || *id > *n {
 		say("FAILED bad -n/-id/-ports")
 		os.Exit(2)
+	}
+	if *maxCommitted > 0 {
+		settings.Soft.MaxCommittedSizePerReady = *maxCommitted
 	}
 	if *walSeg > 0 {
 		wal.SegmentSizeBytes = *walSeg
